@@ -1,6 +1,6 @@
 (* C05 — Reduce preserves the language and never grows the automaton. Statements only. *)
 From Coq Require Import List NArith Bool Arith.
-From V Require Import Sem Prod Incl TrimDefs TrimProofs Lang BinopDefs ReduceDefs ReduceProofs.
+From V Require Import Sem Prod Incl TrimDefs TrimProofs Lang BinopDefs ReduceDefs ReduceProofs ReduceModel.
 
 (* quotient by any representative map that stays inside a downward simulation in both directions, then pruning:
    same language (for every automaton, every such relation, every such choice of representatives) *)
@@ -20,7 +20,23 @@ Proof. intros A D H. apply sim_reach. apply is_down_simb_spec. exact H. Qed.
 Theorem C05_gate : forall A R, reduce_gate A R = true <-> reduce_prop A R.
 Proof. exact reduce_gate_spec. Qed.
 
+(* the complete functional model: simulation computed by refinement, canonical representative per class, collapse, prune.
+   The computed relation is a downward simulation and reflexive, the canonical representatives are valid, hence — with no
+   hypothesis left — Reduce keeps the language, and the model passes the gate used on libvata's result *)
+Theorem C05_computed_relation_is_simulation : forall A, is_down_simb A (down_sim_rel A) = true.
+Proof. exact down_sim_rel_is_sim. Qed.
+Theorem C05_canonical_representatives_valid : forall A, valid_repb A (down_sim_rel A) (canon_rep A) = true.
+Proof. exact canon_rep_valid. Qed.
+Theorem C05_reduce_model_lang : forall A t, accepts (reduce_model A) t <-> accepts A t.
+Proof. exact reduce_model_lang. Qed.
+Theorem C05_reduce_model_passes_gate : forall A, reduce_gate A (reduce_model A) = true.
+Proof. exact reduce_model_gate. Qed.
+
 Print Assumptions C05_reduce_lang.
+Print Assumptions C05_computed_relation_is_simulation.
+Print Assumptions C05_canonical_representatives_valid.
+Print Assumptions C05_reduce_model_lang.
+Print Assumptions C05_reduce_model_passes_gate.
 Print Assumptions C05_reduce_states_le.
 Print Assumptions C05_reduce_rules_le.
 Print Assumptions C05_reduce_onto.
